@@ -143,7 +143,33 @@ class _Beta(ast.NodeTransformer):
 
     def visit_Call(self, n):
         self.generic_visit(n)
+        # f(*(a, b, c))  ->  f(a, b, c)    (a *args helper whose tuple of extra arguments was substituted)
+        if any(isinstance(a, ast.Starred) and isinstance(a.value, (ast.Tuple, ast.List)) for a in n.args):
+            new = []
+            for a in n.args:
+                if isinstance(a, ast.Starred) and isinstance(a.value, (ast.Tuple, ast.List)):
+                    new.extend(a.value.elts)
+                else:
+                    new.append(a)
+            n.args = new
         f = n.func
+        # NAME = operator.methodcaller("m", a..) / attrgetter("a") / itemgetter(k) at module level:  NAME(x) is x.m(a..) / x.a / x[k]
+        if isinstance(f, ast.Name) and self.module is not None and len(n.args) == 1 and not n.keywords and not isinstance(n.args[0], ast.Starred):
+            b = self.module.bindings.get(f.id)
+            mk = b[1] if b and b[0] == "value" and isinstance(b[1], ast.Call) else None
+            kind = operator_function(self.module, mk.func) if mk is not None else None
+            if kind is None and mk is not None and isinstance(mk.func, ast.Attribute) and isinstance(mk.func.value, ast.Name) \
+                    and mk.func.value.id == "operator":
+                kind = mk.func.attr
+            if kind == "methodcaller" and mk.args and isinstance(mk.args[0], ast.Constant) and isinstance(mk.args[0].value, str) \
+                    and mk.args[0].value.isidentifier():
+                return ast.copy_location(ast.Call(func=ast.Attribute(value=n.args[0], attr=mk.args[0].value, ctx=ast.Load()),
+                                                  args=[clone(a) for a in mk.args[1:]], keywords=[clone(k) for k in mk.keywords]), n)
+            if kind == "attrgetter" and len(mk.args) == 1 and isinstance(mk.args[0], ast.Constant) and isinstance(mk.args[0].value, str) \
+                    and mk.args[0].value.isidentifier():
+                return ast.copy_location(ast.Attribute(value=n.args[0], attr=mk.args[0].value, ctx=ast.Load()), n)
+            if kind == "itemgetter" and len(mk.args) == 1:
+                return ast.copy_location(ast.Subscript(value=n.args[0], slice=clone(mk.args[0]), ctx=ast.Load()), n)
         opn = operator_function(self.module, f)
         if opn is not None and not n.keywords and not any(isinstance(a, ast.Starred) for a in n.args):
             if opn in OPERATOR_BIN and len(n.args) == 2:
@@ -230,7 +256,15 @@ def callee_short(call):
 
 
 class _AttrCanon(ast.NodeTransformer):
-    """getattr(o, "name") -> o.name ;  statement setattr(o, "name", v) -> o.name = v   (constant identifier names only)"""
+    """getattr(o, "name") -> o.name ;  statement setattr(o, "name", v) -> o.name = v   (constant identifier names only;
+    "_" + "name" between string constants is the constant "_name")"""
+
+    def visit_BinOp(self, n):
+        self.generic_visit(n)
+        if isinstance(n.op, ast.Add) and isinstance(n.left, ast.Constant) and isinstance(n.right, ast.Constant) \
+                and isinstance(n.left.value, str) and isinstance(n.right.value, str):
+            return ast.copy_location(ast.Constant(value=n.left.value + n.right.value), n)
+        return n
 
     def visit_Call(self, n):
         self.generic_visit(n)
@@ -259,7 +293,7 @@ class _Rename(ast.NodeTransformer):
         return n
 
 
-UNROLL_MAX = 4
+UNROLL_MAX = 8
 
 
 def _simple_elem(e):
@@ -279,12 +313,20 @@ def _literal_iteration(it, fnode=None):
         if len(defs) == 1 and isinstance(defs[0], ast.Assign) and isinstance(defs[0].value, (ast.Tuple, ast.List)) and not mut:
             return _literal_iteration(defs[0].value)
         if not defs and not mut and it.id not in {a.arg for a in getattr(getattr(fnode, "args", None), "args", [])}:
+            pass
+        if not defs and not mut and it.id not in {a.arg for a in getattr(getattr(fnode, "args", None), "args", [])}:
             # a closure variable: a literal table of the enclosing function
             for outer in getattr(fnode, "_closure_parents", []):
                 r = _literal_iteration(it, outer)
                 if r is not None:
                     return r
         return None
+    if isinstance(it, ast.Attribute) and isinstance(it.value, ast.Name) and fnode is not None:
+        # self.TABLE / cls.TABLE / Class.TABLE: a literal class attribute that is never re-bound
+        ca = getattr(fnode, "_class_attrs", None) or {}
+        key = (it.value.id, it.attr)
+        if key in ca:
+            return _literal_iteration(ca[key])
     if isinstance(it, (ast.Tuple, ast.List)) and 1 <= len(it.elts) <= UNROLL_MAX and all(_simple_elem(e) for e in it.elts):
         return [e for e in it.elts]
     if isinstance(it, ast.Call) and isinstance(it.func, ast.Name) and it.func.id == "enumerate" and len(it.args) == 1 and not it.keywords:
@@ -439,6 +481,144 @@ def _split_schedule_loop(s, fnode):
     return out
 
 
+def _split_range_loop(s, fnode):
+    """for r in range(N1 + N2 + N3): BODY   where BODY tests r only against the partial sums 0, N1, N1+N2, ...
+    (`r < N1`, `r >= N1 + N2`, ...)   ->   one loop per segment, r written as <offset> + r_k and the tests decided:
+         for r1 in range(N1): BODY[r := r1]            # tests on r folded
+         for r2 in range(N2): BODY[r := N1 + r2]  ...
+    (three phases driven by one counter are three loops)."""
+    from .poly import poly_of
+    if not (isinstance(s, ast.For) and not s.orelse and isinstance(s.target, ast.Name) and isinstance(s.iter, ast.Call)
+            and isinstance(s.iter.func, ast.Name) and s.iter.func.id == "range" and len(s.iter.args) == 1 and not s.iter.keywords):
+        return None
+    r = s.target.id
+    total = s.iter.args[0]
+    # locals bound once to an expression (half = R_F // 2) are looked through when comparing bounds
+    defs = {}
+    cnt = {}
+    for n in ast.walk(fnode):
+        if isinstance(n, ast.Name) and not isinstance(n.ctx, ast.Load):
+            cnt[n.id] = cnt.get(n.id, 0) + 1
+    for n in ast.walk(fnode):
+        if isinstance(n, ast.Assign) and len(n.targets) == 1 and isinstance(n.targets[0], ast.Name) and cnt.get(n.targets[0].id) == 1:
+            defs[n.targets[0].id] = n.value
+    parts = []
+
+    def flat(e):
+        if isinstance(e, ast.Name) and e.id in defs and isinstance(defs[e.id], ast.BinOp) and isinstance(defs[e.id].op, ast.Add):
+            flat(defs[e.id])
+        elif isinstance(e, ast.BinOp) and isinstance(e.op, ast.Add):
+            flat(e.left)
+            flat(e.right)
+        else:
+            parts.append(e)
+    flat(total)
+    if len(parts) < 2 or len(parts) > 4:
+        return None
+    if any(isinstance(x, ast.Name) and x.id == r and not isinstance(x.ctx, ast.Load) for b in s.body for x in ast.walk(b)):
+        return None
+    if any(isinstance(x, (ast.Break, ast.Continue, ast.Return, ast.Yield, ast.YieldFrom, ast.FunctionDef, ast.Lambda)) for b in s.body for x in ast.walk(b)):
+        return None
+
+    def P_(e):
+        return poly_of(_Subst({k: v for k, v in defs.items() if not any(isinstance(x, ast.Call) for x in ast.walk(v))}).visit(clone(e)), {}, strict=False)
+    bounds = [None] * (len(parts) + 1)
+    acc = None
+    from .poly import P as _Pc
+    bounds[0] = _Pc()
+    for i, prt in enumerate(parts):
+        pp = P_(prt)
+        if pp is None:
+            return None
+        acc = pp if acc is None else acc + pp
+        bounds[i + 1] = acc
+    # every comparison that mentions r must be against a breakpoint
+    cmps = [x for b in s.body for x in ast.walk(b) if isinstance(x, ast.Compare) and any(isinstance(y, ast.Name) and y.id == r for y in ast.walk(x))]
+    if not cmps:
+        return None
+    decided = {}
+    for c in cmps:
+        if len(c.ops) != 1:
+            return None
+        left, op, right = c.left, c.ops[0], c.comparators[0]
+        if isinstance(right, ast.Name) and right.id == r and not (isinstance(left, ast.Name) and left.id == r):
+            left, right = right, left
+            op = {ast.Lt: ast.Gt, ast.Gt: ast.Lt, ast.LtE: ast.GtE, ast.GtE: ast.LtE}.get(type(op), type(op))()
+        if not (isinstance(left, ast.Name) and left.id == r) or any(isinstance(y, ast.Name) and y.id == r for y in ast.walk(right)):
+            return None
+        e = P_(right)
+        if e is None:
+            return None
+        if isinstance(op, (ast.LtE, ast.Gt)):
+            e = e + _Pc.const(1)            # r <= E  ==  r < E+1 ;  r > E  ==  r >= E+1
+        j = [k for k, b in enumerate(bounds) if b == e]
+        if not j or not isinstance(op, (ast.Lt, ast.LtE, ast.Gt, ast.GtE)):
+            return None
+        lt = isinstance(op, (ast.Lt, ast.LtE))
+        # in segment i (1-based: bounds[i-1] <= r < bounds[i]):  r < bounds[j]  iff  i <= j
+        decided[id(c)] = (j[0], lt)
+    out = []
+    offset = None
+    for i, prt in enumerate(parts, start=1):
+        rk = "_%s_seg%d_%d" % (r, getattr(s, "lineno", 0), i)
+        idx = ast.Name(id=rk, ctx=ast.Load()) if offset is None else ast.BinOp(left=clone(offset), op=ast.Add(), right=ast.Name(id=rk, ctx=ast.Load()))
+
+        class _Seg(ast.NodeTransformer):
+            def visit_Compare(self_, n):
+                if id(n) in decided_here:
+                    return ast.copy_location(ast.Constant(value=decided_here[id(n)]), n)
+                self_.generic_visit(n)
+                return n
+        body = []
+        for b in s.body:
+            b2 = clone(b)
+            # map the decisions onto the clone (same walk order)
+            orig = [x for x in ast.walk(b)]
+            new = [x for x in ast.walk(b2)]
+            decided_here = {}
+            for o, n2 in zip(orig, new):
+                if id(o) in decided:
+                    j, lt = decided[id(o)]
+                    decided_here[id(n2)] = (i <= j) if lt else not (i <= j)
+            b2 = _Seg().visit(b2)
+            b2 = _FoldBool().visit(b2)
+            b2 = _Subst({r: idx}).visit(b2)
+            body.append(b2)
+        body = _fold_const_ifs([_FoldConstIfExp().visit(b) for b in body])
+        lp = ast.For(target=ast.Name(id=rk, ctx=ast.Store()), iter=ast.Call(func=ast.Name(id="range", ctx=ast.Load()), args=[clone(prt)], keywords=[]),
+                     body=body or [ast.Pass()], orelse=[])
+        out.append(ast.fix_missing_locations(ast.copy_location(lp, s)))
+        offset = clone(prt) if offset is None else ast.BinOp(left=offset, op=ast.Add(), right=clone(prt))
+    return out
+
+
+class _FoldBool(ast.NodeTransformer):
+    """and / or / not over constants"""
+
+    def visit_BoolOp(self, n):
+        self.generic_visit(n)
+        is_and = isinstance(n.op, ast.And)
+        vals = []
+        for v in n.values:
+            if isinstance(v, ast.Constant) and isinstance(v.value, bool):
+                if v.value != is_and:
+                    return ast.copy_location(ast.Constant(value=v.value), n)      # absorbing element
+                continue
+            vals.append(v)
+        if not vals:
+            return ast.copy_location(ast.Constant(value=is_and), n)
+        if len(vals) == 1:
+            return vals[0]
+        n.values = vals
+        return n
+
+    def visit_UnaryOp(self, n):
+        self.generic_visit(n)
+        if isinstance(n.op, ast.Not) and isinstance(n.operand, ast.Constant) and isinstance(n.operand.value, bool):
+            return ast.copy_location(ast.Constant(value=not n.operand.value), n)
+        return n
+
+
 def _scalarize_lists(stmts, fnode):
     """L = []; L.append(a); L.append(b); t1, t2 = L   ->   L__0 = a; L__1 = b; t1 = L__0; t2 = L__1
     (all at one block level, L used nowhere else in the function)"""
@@ -511,7 +691,7 @@ def _append_loops_to_comprehensions(stmts):
     return changed
 
 
-def _propagate_copies(stmts):
+def _propagate_copies(stmts, protected=()):
     """x = y  (two plain names) followed, in the same straight-line block, by uses of x up to its next assignment:
     the uses read y and the alias statement goes away (`acc = args; acc = f(acc)`  ->  `acc = f(args)`)."""
     changed = False
@@ -519,7 +699,8 @@ def _propagate_copies(stmts):
     while i < len(stmts):
         s = stmts[i]
         if isinstance(s, ast.Assign) and len(s.targets) == 1 and isinstance(s.targets[0], ast.Name) and isinstance(s.value, ast.Name) \
-                and s.targets[0].id != s.value.id:
+                and s.targets[0].id != s.value.id and s.targets[0].id not in protected:
+            # (a global / nonlocal is not a private alias: the assignment is seen by the functions called in between)
             x, y = s.targets[0].id, s.value.id
             j = i + 1
             closed = False
@@ -707,6 +888,263 @@ def _parents_of(node, root):
         return False
     go(root, [])
     return path
+
+
+def _ifs_to_ifexp(fnode):
+    """if T: x = A  else: x = B   (one plain-name assignment per arm, same name, simple values)   ->   x = A if T else B
+    One canonical form for a two-way choice of a value; only for arms that are expressions without calls (so nothing with
+    an emission effect changes shape) and tests without calls other than isinstance / len."""
+    def simple_val(e):
+        return not any(isinstance(x, (ast.Lambda, ast.Yield, ast.YieldFrom, ast.Await, ast.NamedExpr, ast.IfExp,
+                                      ast.ListComp, ast.GeneratorExp, ast.DictComp, ast.SetComp)) or (
+            isinstance(x, ast.Call) and not (isinstance(x.func, ast.Name) and x.func.id == "len" and len(x.args) == 1 and _simple(x.args[0])))
+            for x in ast.walk(e))
+
+    def simple_test(t):
+        return not any(isinstance(x, ast.Call) and not (isinstance(x.func, ast.Name) and x.func.id in ("isinstance", "len"))
+                       for x in ast.walk(t))
+    changed = False
+    for holder in ast.walk(fnode):
+        for fld in ("body", "orelse", "finalbody"):
+            stmts = getattr(holder, fld, None)
+            if not (isinstance(stmts, list) and stmts and isinstance(stmts[0], ast.stmt)):
+                continue
+            for i, s in enumerate(stmts):
+                if isinstance(s, ast.If) and len(s.body) == 1 and len(s.orelse) == 1 and all(
+                        isinstance(a, ast.Assign) and len(a.targets) == 1 and isinstance(a.targets[0], ast.Name) for a in (s.body[0], s.orelse[0])) \
+                        and s.body[0].targets[0].id == s.orelse[0].targets[0].id and simple_val(s.body[0].value) and simple_val(s.orelse[0].value) \
+                        and simple_test(s.test):
+                    v = ast.IfExp(test=s.test, body=s.body[0].value, orelse=s.orelse[0].value)
+                    stmts[i] = ast.fix_missing_locations(ast.copy_location(ast.Assign(targets=[s.body[0].targets[0]], value=ast.copy_location(v, s)), s))
+                    changed = True
+    return changed
+
+
+def _const_table_lookups(fi):
+    """T[<constant>] for a literal table T that is a class attribute (C.T / self.T / cls.T) or a module-level name bound once and
+    never mutated: the element itself (a dispatch table indexed by a literal key, after the key was substituted)."""
+    m = fi.module
+    ci = fi.cls
+    p_ = fi
+    while ci is None and p_ is not None:
+        p_ = p_.parent
+        ci = p_.cls if p_ is not None else None
+
+    def table_of(v):
+        if isinstance(v, ast.Attribute) and isinstance(v.value, ast.Name):
+            c2 = None
+            if v.value.id in m.classes:
+                c2 = m.classes[v.value.id]
+            elif ci is not None and v.value.id in ("self", "cls"):
+                c2 = ci
+            if c2 is not None and v.attr in c2.attrs and not any(
+                    isinstance(x, ast.Attribute) and x.attr == v.attr and not isinstance(x.ctx, ast.Load) for x in ast.walk(m.tree)):
+                return c2.attrs[v.attr]
+        if isinstance(v, ast.Name):
+            b = m.bindings.get(v.id)
+            if b and b[0] == "value" and sum(1 for x in ast.walk(m.tree) if isinstance(x, ast.Name) and x.id == v.id
+                                             and not isinstance(x.ctx, ast.Load)) == 1 and not any(
+                    isinstance(x, ast.Subscript) and isinstance(x.value, ast.Name) and x.value.id == v.id and not isinstance(x.ctx, ast.Load)
+                    for x in ast.walk(m.tree)):
+                return b[1]
+        return None
+
+    class _L(ast.NodeTransformer):
+        changed = False
+
+        def visit_Subscript(self, n):
+            self.generic_visit(n)
+            if isinstance(n.ctx, ast.Load) and isinstance(n.slice, ast.Constant):
+                t = table_of(n.value)
+                k = n.slice.value
+                if isinstance(t, ast.Dict) and all(isinstance(x, ast.Constant) for x in t.keys):
+                    hit = [v for kk, v in zip(t.keys, t.values) if kk.value == k and type(kk.value) is type(k)]
+                    if len(hit) == 1:
+                        _L.changed = True
+                        return ast.copy_location(clone(hit[0]), n)
+                if isinstance(t, (ast.Tuple, ast.List)) and isinstance(k, int) and not isinstance(k, bool) and -len(t.elts) <= k < len(t.elts):
+                    _L.changed = True
+                    return ast.copy_location(clone(t.elts[k]), n)
+            return n
+    _L.changed = False
+    fi.node.body = [_L().visit(s) for s in fi.node.body]
+    if _L.changed:
+        ast.fix_missing_locations(fi.node)
+    return _L.changed
+
+
+def _inline_function_locals(fi):
+    """f = <lambda> | operator.and_ | <module function>   (f bound once, only ever called)   ->   the calls call the value"""
+    fnode = fi.node
+    stores, loads = {}, {}
+    for n in ast.walk(fnode):
+        if isinstance(n, ast.Name):
+            d = loads if isinstance(n.ctx, ast.Load) else stores
+            d.setdefault(n.id, []).append(n)
+    calls = {}
+    for n in ast.walk(fnode):
+        if isinstance(n, ast.Call) and isinstance(n.func, ast.Name):
+            calls.setdefault(n.func.id, []).append(n)
+    changed = False
+    for holder in ast.walk(fnode):
+        for fld in ("body", "orelse", "finalbody"):
+            stmts = getattr(holder, fld, None)
+            if not (isinstance(stmts, list) and stmts and isinstance(stmts[0], ast.stmt)):
+                continue
+            for s in list(stmts):
+                if not (isinstance(s, ast.Assign) and len(s.targets) == 1 and isinstance(s.targets[0], ast.Name)):
+                    continue
+                t, v = s.targets[0].id, s.value
+                fnval = isinstance(v, ast.Lambda) or operator_function(fi.module, v) is not None
+                if not fnval or len(stores.get(t, [])) != 1 or t in {a.arg for a in fnode.args.args}:
+                    continue
+                if len(loads.get(t, [])) != len(calls.get(t, [])) or not calls.get(t):
+                    continue          # also passed on / stored: not only called
+                if isinstance(v, ast.Lambda) and any(isinstance(x, ast.Name) and x.id in stores and x.id not in {a.arg for a in v.args.args}
+                                                     and len(stores[x.id]) > 1 for x in ast.walk(v.body)):
+                    continue          # the lambda reads a local that is re-bound: late binding matters
+                for c in calls[t]:
+                    c.func = clone(v)
+                stmts.remove(s)
+                changed = True
+            if not stmts:
+                stmts.append(ast.Pass())
+    if changed:
+        fnode.body = [_Beta(fi.module).visit(b) for b in fnode.body]
+        ast.fix_missing_locations(fnode)
+    return changed
+
+
+def _propagate_const_locals(fnode):
+    """name = <constant>  (bound exactly once in the function, a plain local)  ->  every read is the constant;
+    then getattr(o, "name") is o.name."""
+    stores = {}
+    for n in ast.walk(fnode):
+        if isinstance(n, ast.Name) and not isinstance(n.ctx, ast.Load):
+            stores.setdefault(n.id, []).append(n)
+    params = {a.arg for a in fnode.args.args + fnode.args.kwonlyargs} | ({fnode.args.vararg.arg} if fnode.args.vararg else set()) | (
+        {fnode.args.kwarg.arg} if fnode.args.kwarg else set())
+    shared = {g for n in ast.walk(fnode) if isinstance(n, (ast.Global, ast.Nonlocal)) for g in n.names}
+    consts = {}
+    holders = []
+    for holder in ast.walk(fnode):
+        for fld in ("body", "orelse", "finalbody"):
+            stmts = getattr(holder, fld, None)
+            if isinstance(stmts, list) and stmts and isinstance(stmts[0], ast.stmt):
+                for s in stmts:
+                    if isinstance(s, ast.Assign) and len(s.targets) == 1 and isinstance(s.targets[0], ast.Name) and isinstance(s.value, ast.Constant) \
+                            and isinstance(s.value.value, (str, int, bool, type(None))) and len(stores.get(s.targets[0].id, [])) == 1 \
+                            and s.targets[0].id not in params and s.targets[0].id not in shared and holder is fnode:
+                        consts[s.targets[0].id] = s.value
+                        holders.append((stmts, s))
+    if not consts:
+        return False
+    # only when every read comes after the binding in the same straight-line body (top-level binding): reads inside nested
+    # functions could run before it
+    for n in ast.walk(fnode):
+        if isinstance(n, (ast.FunctionDef, ast.Lambda)) and n is not fnode:
+            for x in ast.walk(n):
+                if isinstance(x, ast.Name) and x.id in consts:
+                    consts.pop(x.id, None)
+    if not consts:
+        return False
+    for stmts, s in holders:
+        if s.targets[0].id in consts:
+            stmts.remove(s)
+    fnode.body = [_AttrCanon().visit(_Subst(consts).visit(b)) for b in fnode.body] or [ast.Pass()]
+    ast.fix_missing_locations(fnode)
+    return True
+
+
+def _canon_tests(fnode):
+    """One spelling for tests:  `0 == x` -> `x == 0`, `0 < x` -> `x > 0` (an int constant on the left defers to the right
+    operand's reflected method, which is what the swapped form calls);  `if not T: A else: B` -> `if T: B else: A`."""
+    FL = {ast.Eq: ast.Eq, ast.NotEq: ast.NotEq, ast.Lt: ast.Gt, ast.Gt: ast.Lt, ast.LtE: ast.GtE, ast.GtE: ast.LtE}
+    changed = False
+    for n in ast.walk(fnode):
+        if isinstance(n, ast.Compare) and len(n.ops) == 1 and type(n.ops[0]) in FL and isinstance(n.left, ast.Constant) \
+                and isinstance(n.left.value, int) and not isinstance(n.left.value, bool) and not isinstance(n.comparators[0], ast.Constant):
+            n.left, n.comparators[0] = n.comparators[0], n.left
+            n.ops[0] = FL[type(n.ops[0])]()
+            changed = True
+        elif isinstance(n, ast.If) and n.body and n.orelse and isinstance(n.test, ast.UnaryOp) and isinstance(n.test.op, ast.Not) \
+                and not (len(n.orelse) == 1 and isinstance(n.orelse[0], ast.If)):
+            n.test = n.test.operand
+            n.body, n.orelse = n.orelse, n.body
+            changed = True
+    return changed
+
+
+def _fuse_arg_temps(fnode):
+    """t = E ; f(a, t, ..)   (t bound once and read once, as a direct argument of the call that the next statement evaluates,
+    callee expression and earlier arguments pure)   ->   f(a, E, ..)      - a named intermediate is the expression it names"""
+    def pure(e):
+        if isinstance(e, (ast.Name, ast.Constant)):
+            return True
+        if isinstance(e, ast.Attribute):
+            return pure(e.value)
+        return False
+    loads, stores = {}, {}
+    for n in ast.walk(fnode):
+        if isinstance(n, ast.Name):
+            d = loads if isinstance(n.ctx, ast.Load) else stores
+            d[n.id] = d.get(n.id, 0) + 1
+    changed = False
+    for holder in ast.walk(fnode):
+        for fld in ("body", "orelse", "finalbody"):
+            stmts = getattr(holder, fld, None)
+            if not (isinstance(stmts, list) and stmts and isinstance(stmts[0], ast.stmt)):
+                continue
+            i = 0
+            while i + 1 < len(stmts):
+                a, b = stmts[i], stmts[i + 1]
+                if isinstance(a, ast.Assign) and len(a.targets) == 1 and isinstance(a.targets[0], ast.Name) and isinstance(a.value, ast.Call) \
+                        and isinstance(b, (ast.Expr, ast.Assign, ast.Return)) and isinstance(getattr(b, "value", None), ast.Call):
+                    t = a.targets[0].id
+                    call = b.value
+                    alloc = isinstance(a.value.func, (ast.Name, ast.Attribute)) and (
+                        a.value.func.id if isinstance(a.value.func, ast.Name) else a.value.func.attr) in (
+                        "PrivVal", "PubVal", "ConstVal", "PrivValBool", "PubValBool", "PrivValFxp", "PubValFxp")
+                    # (a wire allocated under a name keeps its name: the gadget rules speak about witnesses by name)
+                    if loads.get(t, 0) == 1 and stores.get(t, 0) == 1 and pure(call.func) and not call.keywords and not alloc:
+                        for k, arg in enumerate(call.args):
+                            if isinstance(arg, ast.Name) and arg.id == t and all(pure(x) for x in call.args[:k]):
+                                call.args[k] = a.value
+                                del stmts[i]
+                                changed = True
+                                i -= 1
+                                break
+                i += 1
+                if i < 0:
+                    i = 0
+    return changed
+
+
+def _fuse_return_temps(fnode):
+    """t = E ; return t   (t bound once, read once)   ->   return E"""
+    loads, stores = {}, {}
+    for n in ast.walk(fnode):
+        if isinstance(n, ast.Name):
+            d = loads if isinstance(n.ctx, ast.Load) else stores
+            d[n.id] = d.get(n.id, 0) + 1
+    changed = False
+    for holder in ast.walk(fnode):
+        for fld in ("body", "orelse", "finalbody"):
+            stmts = getattr(holder, fld, None)
+            if not (isinstance(stmts, list) and stmts and isinstance(stmts[0], ast.stmt)):
+                continue
+            i = 0
+            while i + 1 < len(stmts):
+                a, b = stmts[i], stmts[i + 1]
+                if isinstance(a, ast.Assign) and len(a.targets) == 1 and isinstance(a.targets[0], ast.Name) and isinstance(b, ast.Return) \
+                        and isinstance(b.value, ast.Name) and b.value.id == a.targets[0].id \
+                        and loads.get(a.targets[0].id, 0) == 1 and stores.get(a.targets[0].id, 0) == 1:
+                    b.value = a.value
+                    del stmts[i]
+                    changed = True
+                    continue
+                i += 1
+    return changed
 
 
 def _fuse_test_temps(fnode):
@@ -944,8 +1382,7 @@ class Flattener:
             return None
         if any(isinstance(a, ast.Starred) for a in call.args) or any(k.arg is None for k in call.keywords):
             return None
-        if fn.args.vararg and (call.keywords or fn.args.defaults or len(call.args) - len(fn.args.args) > UNROLL_MAX
-                               or not all(_simple(a) for a in call.args[len(fn.args.args):])):
+        if fn.args.vararg and (call.keywords or fn.args.defaults or len(call.args) - len(fn.args.args) > UNROLL_MAX):
             return None
         if _count(fn) > MAX_STMTS or not _single_exit(fn, multi_ok=True):
             return None
@@ -996,7 +1433,16 @@ class Flattener:
             # *rest bound to the tuple of the extra (simple) positional arguments
             if fn.args.vararg.arg in assigned:
                 return None
-            mapping[fn.args.vararg.arg] = ast.Tuple(elts=[clone(a) for a in args[len(params):]], ctx=ast.Load())
+            extra = []
+            for k_, a in enumerate(args[len(params):]):
+                if _simple(a) or isinstance(a, ast.Constant):
+                    extra.append(clone(a))
+                else:
+                    # an evaluated extra argument is bound once, in order, and the tuple refers to it
+                    tn_ = "_%s_va%d_%d" % (fn.args.vararg.arg, getattr(call, "lineno", 0), k_)
+                    pre.append(ast.copy_location(ast.Assign(targets=[ast.Name(id=tn_, ctx=ast.Store())], value=clone(a)), call))
+                    extra.append(ast.Name(id=tn_, ctx=ast.Load()))
+            mapping[fn.args.vararg.arg] = ast.Tuple(elts=extra, ctx=ast.Load())
         elif len(args) > len(params):
             return None
         body = [clone(s) for s in fn.body]
@@ -1676,6 +2122,10 @@ class Flattener:
             if rep is None and isinstance(s, ast.For):
                 rep = self.expand_generator_loop(fi, s)
             if rep is None and isinstance(s, ast.For):
+                rep = _split_range_loop(s, fi.node)
+                if rep is not None:
+                    self.log.append("%s: loop over range(a + b + ..) split at its phase boundaries, line %s" % (fi.fq, getattr(s, "lineno", "?")))
+            if rep is None and isinstance(s, ast.For):
                 rep = _split_schedule_loop(s, fi.node)
                 if rep is not None:
                     self.log.append("%s: loop over a piecewise-constant schedule split at line %s" % (fi.fq, getattr(s, "lineno", "?")))
@@ -1704,7 +2154,7 @@ class Flattener:
             changed = True
         if _append_loops_to_comprehensions(out):
             changed = True
-        if _propagate_copies(out):
+        if _propagate_copies(out, {g for n_ in ast.walk(fi.node) if isinstance(n_, (ast.Global, ast.Nonlocal)) for g in n_.names}):
             changed = True
         return out, changed
 
@@ -1717,13 +2167,30 @@ class Flattener:
                 chain.append(p_.node)
             p_ = p_.parent
         fi.node._closure_parents = chain
+        ci_, p2_ = fi.cls, fi
+        while ci_ is None and p2_ is not None:
+            p2_ = p2_.parent
+            ci_ = p2_.cls if p2_ is not None else None
+        ca_ = {}
+        for cn_, c_ in fi.module.classes.items():
+            for an_, av_ in c_.attrs.items():
+                if isinstance(av_, (ast.Tuple, ast.List)) and not any(
+                        isinstance(x, ast.Attribute) and x.attr == an_ and not isinstance(x.ctx, ast.Load) for x in ast.walk(fi.module.tree)):
+                    ca_[(cn_, an_)] = av_
+                    if c_ is ci_:
+                        ca_[("self", an_)] = av_
+                        ca_[("cls", an_)] = av_
+        fi.node._class_attrs = ca_
         try:
-            pre_changed = self.scalarize_objects(fi)
+            pre_changed = _canon_tests(fi.node)
+            pre_changed = self.scalarize_objects(fi) or pre_changed
         except Exception as e:
             self.log.append("scalarize_objects failed for %s: %r" % (fi.fq, e))
             pre_changed = False
         any_change = bool(pre_changed)
         for _ in range(MAX_ROUNDS):
+            if _const_table_lookups(fi):
+                any_change = True
             nb, ch = self.flat_block(fi, fi.node.body)
             ei = _ExprInline(self, fi)
             nb = [ei.visit(s) for s in nb]
@@ -1736,7 +2203,29 @@ class Flattener:
                 break
             fi.node.body = nb
             any_change = True
+        if _const_table_lookups(fi):
+            any_change = True
+            nb_, ch_ = self.flat_block(fi, fi.node.body)      # tuple assignments of table rows are split
+            fi.node.body = nb_
+        if any(isinstance(x, ast.Call) and isinstance(x.func, ast.Name) and x.func.id in ("getattr", "setattr") for x in ast.walk(fi.node)):
+            before_ = ast.dump(fi.node)
+            fi.node.body = [_AttrCanon().visit(b) for b in fi.node.body]
+            ast.fix_missing_locations(fi.node)
+            if ast.dump(fi.node) != before_:
+                any_change = True
+        if _inline_function_locals(fi):
+            any_change = True
+        if _propagate_const_locals(fi.node):
+            any_change = True
         if _fuse_test_temps(fi.node):
+            any_change = True
+        if _fuse_return_temps(fi.node):
+            any_change = True
+        for _ in range(4):
+            if not _fuse_arg_temps(fi.node):
+                break
+            any_change = True
+        if _ifs_to_ifexp(fi.node):
             any_change = True
         if _inline_name_copies(fi.node):
             any_change = True
@@ -1960,7 +2449,8 @@ def _drop_dead_helpers(repo, fl):
     for m in repo.modules.values():
         for q, fi in list(m.functions.items()):
             nm = fi.name
-            if nm in fl.inlined_names and nm.startswith("_") and not nm.endswith("__") and nm not in KNOWN and refs.get(nm, 0) == 0:
+            if nm in fl.inlined_names and not nm.endswith("__") and nm not in KNOWN and refs.get(nm, 0) == 0 and (
+                    nm.startswith("_") or (fi.cls is None and fi.parent is None)):
                 del m.functions[q]
                 if fi.cls is not None:
                     fi.cls.methods.pop(nm, None)
